@@ -258,7 +258,25 @@ func CNFSatBy(clauses [][]int, m []bool) int {
 // steps bounds the work; ok=false means the bound was hit (no verdict).
 func DPLL(n int, clauses [][]int, steps int) (sat bool, model []bool, ok bool) {
 	d := &dpll{n: n, cls: clauses, val: make([]int8, n+1), budget: steps}
-	r := d.solve()
+	// branching only concerns variables that occur in some clause (the others keep the value false): files
+	// with tens of thousands of declared variables and few clauses stay cheap
+	seen := make([]bool, n+1)
+	for _, c := range clauses {
+		for _, l := range c {
+			if l < 0 {
+				l = -l
+			}
+			if l >= 1 && l <= n && !seen[l] {
+				seen[l] = true
+			}
+		}
+	}
+	for v := 1; v <= n; v++ {
+		if seen[v] {
+			d.occ = append(d.occ, v)
+		}
+	}
+	r := d.solve(0)
 	if d.budget <= 0 {
 		return false, nil, false
 	}
@@ -276,6 +294,7 @@ type dpll struct {
 	cls    [][]int
 	val    []int8
 	budget int
+	occ    []int // variables occurring in the clauses, ascending: the branching order
 }
 
 func (d *dpll) lit(l int) int8 {
@@ -285,7 +304,7 @@ func (d *dpll) lit(l int) int8 {
 	return -d.val[-l]
 }
 
-func (d *dpll) solve() bool {
+func (d *dpll) solve(from int) bool {
 	d.budget--
 	if d.budget <= 0 {
 		return false
@@ -336,9 +355,10 @@ func (d *dpll) solve() bool {
 			}
 		}
 	}
+	// every variable before position from in the branching order is assigned (branched on, or propagated)
 	br := 0
-	for v := 1; v <= d.n; v++ {
-		if d.val[v] == 0 {
+	for ; from < len(d.occ); from++ {
+		if v := d.occ[from]; d.val[v] == 0 {
 			br = v
 			break
 		}
@@ -348,7 +368,7 @@ func (d *dpll) solve() bool {
 	}
 	for _, s := range []int8{1, -1} {
 		d.val[br] = s
-		if d.solve() {
+		if d.solve(from + 1) {
 			return true
 		}
 		d.val[br] = 0
